@@ -139,6 +139,8 @@ func (c *Component) recv() {
 			c.ErrorHandler(errors.New("stream error: " + p.Error.Local))
 			// We don't return here, because we want to wait for the stream close tag from the server, or timeout.
 			c.Disconnect()
+			// The stream error has been handed to the router above: once is enough.
+			continue
 		case stanza.StreamClosePacket:
 			// TCP messages should arrive in order, so we can expect to get nothing more after this occurs
 			c.transport.ReceivedStreamClose()
